@@ -30,6 +30,14 @@ MUTANTS = [
      'exactly_lib/impls/types/string_transformer/impl/sources/transformed_by_program.py',
      "        output.flush()\n", "",
      '_TransformationWriter.write : ' + _APP),
+    # --- the output is a SpooledTextFile (freezing the output of a program): fileno() rolls over, the child writes to the disk file
+    ('t14-c14-spooled-flush-is-a-no-op', 'C14', 'exactly_lib/util/file_utils/spooled_file.py',
+     "    def flush(self):\n        self._file.flush()", "    def flush(self):\n        pass",
+     '_WriterBase.write : ' + _APP),
+    ('t14-c14-rollover-leaves-the-text-in-the-buffer', 'C14', 'exactly_lib/util/file_utils/spooled_file.py',
+     "        newfile.write(mem_buff_contents[mem_buff_position:])\n        newfile.seek(position, 0)",
+     "        newfile.seek(position, 0)\n        newfile.write(mem_buff_contents[mem_buff_position:])",
+     'SpooledTextFile._rollover : ensures['),
     # --- which channel is captured
     ('t14-c14-stderr-writer-captures-stdout', 'C14', _CO + 'exit_ignored.py',
      "class StderrWriter(_WriterBase):\n    def _output_files(self, output: TextIO) -> StdOutputFiles:\n        return StdOutputFiles(\n            subprocess.DEVNULL,\n            output,\n        )",
